@@ -3791,6 +3791,11 @@ fn write_residuals<W: BitWrite>(
 
     const MAX_PARTITIONS: usize = 64;
 
+    // the most negative 32-bit value is not a legal residual
+    if residuals.contains(&i32::MIN) {
+        return Err(Error::ResidualOverflow);
+    }
+
     #[derive(Debug)]
     struct Partition<'r, const RICE_MAX: u32> {
         header: ResidualPartitionHeader<RICE_MAX>,
